@@ -13,8 +13,11 @@ S  the term-level stages on symbolic programs: type_check (C03's exploration), r
    (C08's): no panic; a rejection carries at least one error.
 L  error::listing (C15's exploration): no slice off a character boundary, no underflow.
 
-Outside: main.rs (reading the file, invalid UTF-8, exit status, stdout/stderr routing) performs I/O and
-is not encoded; stack exhaustion on deeply nested input."""
+M  the process glue of src/main.rs (main, entry, run, collect_errors, throw, Display for Error) with
+   the command line, the file system and the stage outcomes as solver variables (harness/c14m.py):
+   exit status, what goes to stdout and to stderr, no panic.
+
+Outside: stack exhaustion on deeply nested input; clap's own argument handling; colour."""
 import json
 import os
 import sys
@@ -98,7 +101,7 @@ def main():
         reproduced, detail = fn(H, lab, rec["case"])
         print(("REPRODUCED: " if reproduced else "NOT REPRODUCED: ") + detail)
         return 1 if reproduced else 0
-    only = os.environ.get("C14_PARTS", "PKSL")
+    only = os.environ.get("C14_PARTS", "MPKSL")
     first, last = c09.first_last()
 
     def run(name, mk, confirm_fn, prefixes=None):
@@ -111,6 +114,9 @@ def main():
             name, m.stats.get("paths", 0), m.counters, m.stats.get("obligations", 0), m.stats.get("discharged", 0), m.workers, time.time() - t0))
         c03.handle(H, m.violations, confirm_fn=confirm_fn, classify_fn=lambda l, c: None)
 
+    if "M" in only and not H.worker:
+        import c14m
+        c14m.run_part(H)
     if "P" in only:
         PC.validate_parser(H, 40 if quick else 200)
         nmax = int(os.environ.get("C14_N", "0")) or (4 if quick else 5)
@@ -133,7 +139,7 @@ def main():
         nl = 5 if quick else 7
         run("listing on texts of %d characters (C15 exploration)" % nl, c15.listing_factory(H, nl), c15.confirm_listing, prefixes=("L0",))
         H.bounds["listing"] = "texts of %d code points, token-shaped ranges" % nl
-    H.bounds["outside"] = "main.rs (file reading, invalid UTF-8, exit status, stdout/stderr) is I/O and not encoded; longer token sequences and texts; stack exhaustion on deeply nested input; divergence of user programs (evaluate/normalize are C05/C06's subject)"
+    H.bounds["outside"] = "clap's own argument errors, thread creation failure, colour handling; longer token sequences and texts; stack exhaustion on deeply nested input; divergence of user programs (evaluate/normalize are C05/C06's subject)"
     H.assumptions += ["token sequences are those the tokenizer can produce: a line-break terminator appears only between a token that can end an expression and one that can begin one (established by C09/C10 on the real tokenizer)",
                       "panics are those the executor models: explicit panic!/unwrap/expect, index and slice bounds, RefCell borrow rules, checked integer arithmetic"]
     return H.finish()
